@@ -77,7 +77,8 @@ Definition view_eqb (a b : view) : bool :=
   Bool.eqb (vDisableActiveMigration a) (vDisableActiveMigration b) &&
   (vActiveConnectionIDLimit a =? vActiveConnectionIDLimit b) &&
   zeqb_list (vInitialSourceConnectionID a) (vInitialSourceConnectionID b) &&
-  (vMaxDatagramFrameSize a =? vMaxDatagramFrameSize b).
+  (vMaxDatagramFrameSize a =? vMaxDatagramFrameSize b) &&
+  (vMaxUDPPayloadSize a =? vMaxUDPPayloadSize b) && (vAckDelayExponent a =? vAckDelayExponent b).
 
 Definition pop_eqb (m : option (view * list param * list Z)) (r : option (view * list rp * string)) : bool :=
   match m, r with
